@@ -37,6 +37,11 @@ Definition children_at (es : list edge) (x : Z) (u : nat) : list nat :=
 Definition num_children (es : list edge) (x : Z) (u : nat) : Z :=
   Z.of_nat (length (children_at es x u)).
 
+(** the same count computed in one pass over the rows (used where the models evaluate child
+    counts; equal to [num_children] by [TablesFacts.num_children_l_eq]) *)
+Definition num_children_l (es : list edge) (x : Z) (u : nat) : Z :=
+  Z.of_nat (length (filter (fun e => covers e x && Nat.eqb (eparent e) u) es)).
+
 (** the edge above node [c] in the tree at [x] (the first such row; unique for valid tables) *)
 Definition edge_above (es : list edge) (x : Z) (c : nat) : option nat :=
   find (fun i => covers (edge_at es i) x && Nat.eqb (echild (edge_at es i)) c) (edge_ids es).
